@@ -113,9 +113,9 @@ check("C10", "model_checking",
       "Transport.tla with the receiver's O_NONBLOCK flag, poll and the sleeping states of recvmsg/poll: BlockingRestored, "
       "BlockingNeverEmpty, no missed message, for plans mixing recv/try_recv/try_recv_timeout against senders that send "
       "1..3 packets or just drop, before/during/after each call (exhaustive in TLC). Schedules are replayed with gating; a "
-      "timed receive that the model ends by readiness gets 2 s and must return early, one that the model lets expire gets "
+      "timed receive that the model ends by readiness gets 8 s and must return early (<6 s), one that the model lets expire gets "
       "0..20 ms and must not say 'empty' before floor(d) ms; a try_recv observed asleep in the kernel is a violation.",
-      "Timing uses the receiving thread's own monotonic clock only; durations up to 2 s; the mutant RestoreBlocking=FALSE "
+      "Timing uses the receiving thread's own monotonic clock only; durations up to 8 s; the mutant RestoreBlocking=FALSE "
       "violates BlockingRestored in the model.",
       "TLC exhaustive model checking of Transport.tla + gated replay with timing floors",
       "DESIGN.md 3.3, 6 (C10)")
